@@ -59,6 +59,8 @@ _de += [
 for t in ["bool"] + INTS + ["char", "f32", "f64"]:
     _de.append(H("ev_" + t, "C13.K.event_identity." + t, DE, ["Visitor<'de> for AnyVisitor::visit_" + t, SER + "::Serialize for Any::serialize"],
                  "AnyVisitor.visit_%s(v) re-serializes as the same %s event with the same payload" % (t, t)))
+_de.append(H("ev_strings_and_bytes", "C13.K.event_identity.strings_bytes", DE, ["Visitor<'de> for AnyVisitor::visit_str", "Visitor<'de> for AnyVisitor::visit_string", "Visitor<'de> for AnyVisitor::visit_bytes", "Visitor<'de> for AnyVisitor::visit_byte_buf", SER + "::Serialize for Any::serialize"],
+             "every string / bytes visit form stores the text / bytes unchanged and re-serializes it as a string / bytes event", kind="bounded", bound="2-byte ASCII strings / 2-byte values", timeout=300))
 _de.append(H("ev_unit_none", "C13.K.event_identity.unit_none", DE, ["Visitor<'de> for AnyVisitor::visit_unit", "Visitor<'de> for AnyVisitor::visit_none"],
              "unit / none events re-serialize as unit (JSON null)"))
 for t in ["bool"] + INTS + ["f32", "f64"]:
@@ -89,6 +91,13 @@ _de += [
       "optional keys (null -> None, otherwise Some via the key deserializer) and derive-shaped newtype keys keep their value", timeout=150),
     H("key_unit_variant_enum_view", "C13.K.key.enum", DE, ["Deserializer<'de> for KeyDeserializer::deserialize_enum", "EnumAccess<'de> for KeyDeserializer::variant_seed", "VariantAccess<'de> for UnitVariantDeserializer::unit_variant"],
       "enum map keys: the string form is viewed as that unit variant", timeout=150),
+    H("key_lit_u8", "C13.K.key.literal.u8", DE, ["Deserializer<'de> for KeyDeserializer::macro deserialize_parse", "Deserializer<'de> for KeyDeserializer::macro deserialize_delegate"], "a string key read as u8 gives the spelled value", kind="bounded", bound="1 concrete literal", timeout=200),
+    H("key_lit_i8", "C13.K.key.literal.i8", DE, ["Deserializer<'de> for KeyDeserializer::macro deserialize_parse", "Deserializer<'de> for KeyDeserializer::macro deserialize_delegate"], "a string key read as i8 gives the spelled value", kind="bounded", bound="1 concrete literal", timeout=200),
+    H("key_lit_u16", "C13.K.key.literal.u16", DE, ["Deserializer<'de> for KeyDeserializer::macro deserialize_parse", "Deserializer<'de> for KeyDeserializer::macro deserialize_delegate"], "a string key read as u16 gives the spelled value", kind="bounded", bound="1 concrete literal", timeout=200),
+    H("key_lit_i64", "C13.K.key.literal.i64", DE, ["Deserializer<'de> for KeyDeserializer::macro deserialize_parse", "Deserializer<'de> for KeyDeserializer::macro deserialize_delegate"], "a string key read as i64 gives the spelled value", kind="bounded", bound="1 concrete literal", timeout=200),
+    H("key_lit_char", "C13.K.key.literal.char", DE, ["Deserializer<'de> for KeyDeserializer::macro deserialize_parse", "Deserializer<'de> for KeyDeserializer::macro deserialize_delegate"], "a string key read as char gives the spelled value", kind="bounded", bound="1 concrete literal", timeout=200),
+    H("key_more_types_native", "C13.K.key.more_types_native", DE, ["Deserializer<'de> for KeyDeserializer::macro deserialize_parse"],
+      "typed keys of every integer width, f32 (bitwise) and bool keep their value through the key deserializer (all values)", timeout=300),
     H("key_i32_from_string_len3", "C13.K.key.i32_string", DE, ["Deserializer<'de> for KeyDeserializer::macro deserialize_parse"],
       "string keys of <= 3 bytes read as i32 agree with str::parse", kind="bounded", bound="strings of <= 3 bytes", timeout=400),
 ]
